@@ -45,6 +45,35 @@ type spec struct {
 	class bool       // compare the cyclic diagnostic as a class only (graphs with many cycles and too many orders)
 	group string
 	flow  bool // the jobs mapping in flow style on ONE line: positions differ in the column only
+	// a needs list with ONE entry is written as a scalar (`needs: x`)
+	scalarNeeds bool
+}
+
+// fidelity: the jobs and needs the rule is given are the ones written (ids and references as
+// spelled, in order); the reference evaluation of the property works on the parsed workflow
+func (s *spec) fidelity(jobs []ajob) string {
+	if len(jobs) != len(s.jobs) {
+		return fmt.Sprintf("%d jobs written, %d parsed", len(s.jobs), len(jobs))
+	}
+	byID := map[string]ajob{}
+	for _, j := range jobs {
+		byID[j.ID] = j
+	}
+	for _, g := range s.jobs {
+		j, ok := byID[g.id]
+		if !ok {
+			return "job " + g.id + " lost"
+		}
+		if len(j.Needs) != len(g.needs) {
+			return fmt.Sprintf("job %s: %d needs entries written, %d parsed", g.id, len(g.needs), len(j.Needs))
+		}
+		for i, n := range g.needs {
+			if j.Needs[i].V != n {
+				return fmt.Sprintf("job %s: needs entry %q parsed as %q", g.id, n, j.Needs[i].V)
+			}
+		}
+	}
+	return ""
 }
 
 func (s *spec) yaml() string {
@@ -71,7 +100,9 @@ func (s *spec) yaml() string {
 	b.WriteString("on: push\njobs:\n")
 	for _, j := range s.jobs {
 		b.WriteString("  " + j.id + ":\n")
-		if len(j.needs) > 0 {
+		if len(j.needs) == 1 && s.scalarNeeds {
+			b.WriteString("    needs: " + strconv.Quote(j.needs[0]) + "\n")
+		} else if len(j.needs) > 0 {
 			qs := make([]string, len(j.needs))
 			for i, n := range j.needs {
 				qs[i] = strconv.Quote(n)
@@ -666,7 +697,7 @@ func foldSpecs() []*spec {
 		refs := []string{a, b, c, "ghost"}
 		for _, n0 := range seqs(refs, 2) {
 			for _, n1 := range seqs([]string{a, b}, 1) {
-				out = append(out, &spec{group: "unicode-fold", jobs: []gjob{{a, n0}, {c, n1}}})        // b does not exist: dangling
+				out = append(out, &spec{group: "unicode-fold", jobs: []gjob{{a, n0}, {c, n1}}})           // b does not exist: dangling
 				out = append(out, &spec{group: "unicode-fold", jobs: []gjob{{a, n0}, {b, n1}, {c, nil}}}) // b exists
 			}
 		}
@@ -690,6 +721,42 @@ func oddSpecs() []*spec {
 			}
 			sp.jobs = append(sp.jobs, j)
 		}
+		out = append(out, sp)
+	}
+	// one reference written as a scalar: a job, a dangling id, an id that looks like a placeholder
+	refs := []string{"", "a", "B", "c", "ghost", "${{ x }}", "${{ matrix.j }}", "a b"}
+	for i := range refs {
+		for k := range refs {
+			for l := 0; l < 3; l++ {
+				sp := &spec{group: "scalar-needs", scalarNeeds: true}
+				for q, id := range []string{"a", "b", "c"} {
+					j := gjob{id: id}
+					ref := []string{refs[i], refs[k], refs[(i+k+l)%len(refs)]}[q]
+					if ref != "" {
+						j.needs = []string{ref}
+					}
+					sp.jobs = append(sp.jobs, j)
+				}
+				out = append(out, sp)
+			}
+		}
+	}
+	// more dangling references in one workflow than any per-rule budget of diagnostics
+	{
+		sp := &spec{group: "many-dangling"}
+		var ids []string
+		for i := 0; i < 40; i++ {
+			j := gjob{id: fmt.Sprintf("j%d", i)}
+			ids = append(ids, j.id)
+			for k := 0; k < 30; k++ {
+				j.needs = append(j.needs, fmt.Sprintf("ghost-%d-%d", i, k))
+			}
+			if i > 0 {
+				j.needs = append(j.needs, fmt.Sprintf("j%d", i-1))
+			}
+			sp.jobs = append(sp.jobs, j)
+		}
+		sp.ords = randOrds(hx.NewRng(7), ids, 2)
 		out = append(out, sp)
 	}
 	perms := [][]string{{"setup", "Setup", "test"}, {"setup", "test", "Setup"}, {"test", "setup", "SETUP"}, {"setup", "setup", "test"}, {"Setup", "test", "test", "setup"}, {"test", "setup", "setup"}}
@@ -921,6 +988,12 @@ func main() {
 				sum.Evaluations++
 				distinct++
 				sum.Dist["group:"+sp.group]++
+				if msg := sp.fidelity(rs.jobs); msg != "" {
+					if len(sum.OracleFails) < maxFails {
+						sum.OracleFails = append(sum.OracleFails, failure{What: "the parsed workflow does not carry the jobs and needs as written: " + msg, Key: "fidelity:" + sp.group + ":" + msg, Workflow: rs.src})
+					}
+					sum.Dist["oracle_failures"]++
+				}
 				if rs.ncyc > 0 || rs.nmiss > 0 {
 					nontrivial++
 				}
